@@ -2,6 +2,9 @@
    followed by Print Assumptions.  All of them quantify over every configuration [cfg]
    (hosted services with their dispositions) and every operation history [h].
    Vocabulary (Spec.v): [declared cfg h n] service n was asked and answers "ok";
+   [hidden h n] the node application currently cannot resolve n (GetService answers nil:
+   OHide / OShow may occur anywhere in the history); [declared cfg h n] additionally requires
+   that n was resolvable when it was asked;
    [reported h n] a "retired" notification naming n was delivered; [last_pub tr] the node
    state last published to the cluster (Working at start); [obs_at cfg h o] what operation o
    shows when issued after history h. *)
@@ -31,13 +34,37 @@ Theorem C12_retire_accept_iff : forall cfg h o,
 Proof. exact retire_accept_iff. Qed.
 Print Assumptions C12_retire_accept_iff.
 
-(* an accepted retire publishes Retiring and tells every hosted service to retire *)
+(* an accepted retire publishes Retiring (and nothing else) and tells every hosted service that
+   can be resolved at that moment to retire - and nobody else.  (When nothing is hidden that is
+   every hosted service; re-issuing retire once a service is resolvable again reaches it.) *)
 Theorem C12_retire_tells_all : forall cfg h o,
   is_retire_cmd o = true -> reply_of (obs_at cfg h o) = ROk ->
-  evs_of (obs_at cfg h o) = [EPub Retiring] /\ sends_of (obs_at cfg h o) = retire_sends cfg /\
-  forall n, hosted cfg n = true -> In (n, KRetire) (sends_of (obs_at cfg h o)).
+  evs_of (obs_at cfg h o) = [EPub Retiring] /\
+  sends_of (obs_at cfg h o) = retire_sends cfg (final cfg h) /\
+  (forall n, hosted cfg n = true -> hidden h n = false -> In (n, KRetire) (sends_of (obs_at cfg h o))) /\
+  (forall x, In x (sends_of (obs_at cfg h o)) ->
+             snd x = KRetire /\ hosted cfg (fst x) = true /\ hidden h (fst x) = false).
 Proof. exact retire_tells_all. Qed.
 Print Assumptions C12_retire_tells_all.
+
+(* a hosted service that has not itself reported retired is never counted as retired - also
+   when it was unresolvable while retire was handled and was therefore skipped: its entry stays
+   Working and the node stays below Retired (so exit stays refused, by C12_exit_guard) *)
+Theorem C12_unreported_not_retired : forall cfg h n,
+  hosted cfg n = true -> reported h n = false ->
+  rank (last_pub (run cfg h)) < 3 /\
+  aget n (svcs (final cfg h)) = Some (Working, declared cfg h n).
+Proof. exact unreported_not_retired. Qed.
+Print Assumptions C12_unreported_not_retired.
+
+(* hiding / showing a service changes what GetService answers and nothing else *)
+Theorem C12_hide_show_frame : forall cfg h o,
+  (exists n, o = OHide n \/ o = OShow n) ->
+  nst (final cfg (h ++ [o])) = nst (final cfg h) /\ svcs (final cfg (h ++ [o])) = svcs (final cfg h) /\
+  sup (final cfg (h ++ [o])) = sup (final cfg h) /\ pend (final cfg (h ++ [o])) = pend (final cfg h) /\
+  obs_at cfg h o = Ob RNone [] [].
+Proof. exact hide_show_frame. Qed.
+Print Assumptions C12_hide_show_frame.
 
 (* the node is (published as) retired or beyond only after every hosted service has reported
    retired - and as soon as all of them have *)
@@ -145,3 +172,22 @@ Example C12_example_refusals :
   = [Ob RNone [] [(1, KQuery); (2, KQuery)]; Ob RNoSupport [] []; Ob (RBadState Working) [] [];
      Ob ROk [] []; Ob RUnknown [] []].
 Proof. vm_compute. reflexivity. Qed.
+
+(* a service that cannot be resolved exactly while retire is handled is skipped, not told and
+   not counted: the node stays Retiring after the other service reported, exit is refused;
+   retire re-issued once it is resolvable again reaches it, and only its own notification makes
+   the node Retired.  A service hidden while the start-up query runs never declares support. *)
+Example C12_example_unresolvable :
+  run [(1, DOk); (2, DOk)]
+      [OQueryAll; OHide 2; OCmd CRetire; OShow 2; OSvcCmd 1 SRetired; OCmd CExit; OCmd CWebNodes;
+       OCmd CRetire; OSvcCmd 2 SRetired; OCmd CExit]
+  = [Ob RNone [] [(1, KQuery); (2, KQuery)]; Ob RNone [] [];
+     Ob ROk [EPub Retiring] [(1, KRetire)]; Ob RNone [] []; Ob ROk [] [];
+     Ob (RBadState Retiring) [] [];
+     Ob (RNodes Retiring [(1, (Retired, true)); (2, (Working, true))]) [] [];
+     Ob ROk [EPub Retiring] [(1, KRetire); (2, KRetire)]; Ob ROk [EPub Retired] [];
+     Ob ROk [EPub Exiting; EStop] []]
+  /\ run [(1, DOk)] [OHide 1; OQueryAll; OShow 1; OCmd CRetire; OQuery 1; OCmd CRetire]
+  = [Ob RNone [] []; Ob RNone [] []; Ob RNone [] []; Ob RNoSupport [] [];
+     Ob RNone [] [(1, KQuery)]; Ob ROk [EPub Retiring] [(1, KRetire)]].
+Proof. vm_compute. split; reflexivity. Qed.
